@@ -264,6 +264,17 @@ def total_comparator(lib, cb):
     leaves = ccp.Machine([lib]).run(cb, [ccp.Sym("env"), a, b])
     if any(l.kind != "return" for l in leaves):
         return False, "non-returning path"
+    # lexicographic chaining: first.then(a.cmp(b)) / first.then_with(|| a.cmp(b)) is a total order on distinct strings whatever `first` is
+    if len(leaves) == 1 and isinstance(leaves[0].value, ccp.Call) and re.search(r"cmp::Ordering::then(?:_with)?$", leaves[0].value.callee) and len(leaves[0].value.args) == 2:
+        second = ccp.strip_ref(leaves[0].value.args[1])
+        if isinstance(second, ccp.Call) and second.callee.endswith("::cmp") and {ccp.strip_ref(x).key() for x in second.args} == {a.key(), b.key()}:
+            return True, "first.then(String::cmp(a, b))"
+        if isinstance(second, ccp.Agg) and second.kind == "closure" and lib.body(second.label) is not None:
+            caps = {ccp.strip_ref(x).key() for x in second.fields}
+            r = local.peel(local.Defs(lib.body(second.label)).local(0))
+            ups = {x[1] for x in local.walk(r) if x[0] == "upvar"}
+            if r[0] == "call" and r[1].endswith("::cmp") and caps == {a.key(), b.key()} and len(ups) == 2:
+                return True, "first.then_with(|| String::cmp(a, b))"
     full = None
     for l in leaves:
         v = l.value
